@@ -7,6 +7,7 @@ package io
 // ---- C17: JSON-safe conversion ----
 
 //@ func JsonSafeArray(vals, shiftDim) returns (result)
+//@   locals shape, length, ndims, from, to, step, i, result, i, v
 //@   ndmodel locations
 //@   views unchecked
 //@   safety C17
